@@ -139,6 +139,8 @@ pub struct Child {
     pub argv0: Option<String>,
     /// run this program instead of the fml binary (the wrapper script under bash)
     pub program: Option<String>,
+    /// name of the shim trace file in cwd (several children alive at once in one directory need one each)
+    pub trace_name: Option<String>,
 }
 
 impl Child {
@@ -153,6 +155,7 @@ impl Child {
             aslr: false,
             argv0: None,
             program: None,
+            trace_name: None,
         }
     }
     pub fn describe(&self) -> Value {
@@ -288,12 +291,13 @@ fn prepare(cwd: &Path, c: &Child) -> (Command, Option<PathBuf>, PathBuf, PathBuf
     for (k, v) in &c.env {
         cmd.env(k, v);
     }
-    let trace_path = cwd.join(".fmlsim-trace");
+    let trace_name = c.trace_name.clone().unwrap_or_else(|| ".fmlsim-trace".to_string());
+    let trace_path = cwd.join(&trace_name);
     let _ = std::fs::remove_file(&trace_path);
     if let Some(s) = &c.shim {
         cmd.env("LD_PRELOAD", shim_path());
         cmd.env("FMLSIM_SEED", s.seed.to_string());
-        cmd.env("FMLSIM_TRACE", ".fmlsim-trace");
+        cmd.env("FMLSIM_TRACE", &trace_name);
         cmd.env("FMLSIM_CPU", CPU_LIMIT_S.to_string());
         if c.program.is_some() {
             // a wrapper (bash) runs the binary: only the binary is the system under test; the shell sees an undisturbed world
@@ -460,6 +464,47 @@ pub fn run_second_while_first_waits_for_input(cwd: &Path, first: &Child, first_i
     let stdout = match out_file { Some(p) => std::fs::read(&p).unwrap_or_default(), None => output.stdout };
     let trace = std::fs::read_to_string(&trace_path).unwrap_or_default();
     (ChildResult { exit, stdout, stderr: output.stderr, trace }, second_result)
+}
+
+
+/// A live pipeline: every stage is spawned before any is waited for, stage k's stdout is stage k+1's stdin through a kernel
+/// pipe, the last stage's stdout is captured. All stages are alive at once; the kernel decides who runs. (Each stage keeps
+/// its own shim plan and trace.) An uncontrolled witness, like the ASLR-on tuples: on a correct system the outcome is unique.
+pub fn run_live_pipeline(cwd: &Path, stages: &[Child]) -> Vec<ChildResult> {
+    let mut children: Vec<(std::process::Child, PathBuf)> = Vec::new();
+    let mut prev_out: Option<std::process::ChildStdout> = None;
+    for (i, st) in stages.iter().enumerate() {
+        let mut c = st.clone();
+        c.trace_name = Some(format!(".fmlsim-trace-{}", i));
+        if i > 0 { c.stdin = In::Null; }
+        c.stdout = Out::Pipe;
+        let (mut cmd, _out_file, trace_path, bin) = prepare(cwd, &c);
+        if let Some(po) = prev_out.take() { cmd.stdin(Stdio::from(po)); }
+        unsafe { personality(if c.aslr { 0 } else { ADDR_NO_RANDOMIZE }); }
+        let mut child = match cmd.spawn() {
+            Ok(ch) => ch,
+            Err(e) => { eprintln!("HARNESS-ERROR cannot spawn {}: {}", bin.display(), e); std::process::exit(2); }
+        };
+        if i + 1 < stages.len() { prev_out = child.stdout.take(); }
+        children.push((child, trace_path));
+    }
+    // wait from the last stage backwards: its output is the only one the harness has to drain
+    let mut results: Vec<Option<ChildResult>> = (0..children.len()).map(|_| None).collect();
+    for (i, (child, trace_path)) in children.into_iter().enumerate().rev() {
+        let output = match child.wait_with_output() {
+            Ok(o) => o,
+            Err(e) => { eprintln!("HARNESS-ERROR wait failed: {}", e); std::process::exit(2); }
+        };
+        let exit = match (output.status.code(), output.status.signal()) {
+            (Some(c), _) => Exit::Code(c),
+            (None, Some(24)) | (None, Some(9)) => Exit::Timeout,
+            (None, Some(s)) => Exit::Signal(s),
+            _ => Exit::Signal(-1),
+        };
+        let trace = std::fs::read_to_string(&trace_path).unwrap_or_default();
+        results[i] = Some(ChildResult { exit, stdout: output.stdout, stderr: output.stderr, trace });
+    }
+    results.into_iter().map(|r| r.unwrap()).collect()
 }
 
 /// setup-time probe: the shim must be effective for this binary (dynamic linking, symbol interposition)
